@@ -3,6 +3,10 @@ CONSTANTS
   Lease = 10
   NB = 6
   StrictReplayFh = FALSE
+  GateOpen = "none"
+  FirstSeqs = {}
+  LaxSet = {}
+  RejSet = {}
   AnonOps = {}
   PreClients = {}
   Names = {"a", "b", "c"}
